@@ -247,12 +247,41 @@ def run_inside(case):
     return out
 
 
+class Tail:
+    """a fixed two-link wrapper chain opened by the same frame AFTER the generated head: whatever happens while
+    the head's context is filled, this context must still be elaborated and unwrapped (T0 -> T1)"""
+
+    def __init__(self, n):
+        self.n = n
+
+    def __enter__(self):
+        return self
+
+    def __exit__(self, *a):
+        return False
+
+
+TAILS = {}
+
+
+@elaborate_context.register(Tail)
+def _elab_tail(m, ctx):
+    ctx.description = "tail%d" % m.n
+
+
+@unwrap_context.register(Tail)
+def _unwrap_tail(m, ctx):
+    return TAILS["t1"] if m.n == 0 else None
+
+
 def run_frames(case):
     objs = build(case, enter_head=False)
+    TAILS["t0"], TAILS["t1"] = Tail(0), Tail(1)
 
     def holder_gen(head):
         with head:
-            yield
+            with TAILS["t0"]:
+                yield
 
     g = holder_gen(objs[0])
     next(g)
@@ -265,10 +294,13 @@ def run_frames(case):
     if st.error is not None:
         e = st.error
         err = "RuntimeError" if type(e) is RuntimeError and "100 times" in str(e) else repr(e)
-    if not st.frames or len(st.frames[0].contexts) != 1:
+    if not st.frames or len(st.frames[0].contexts) != 2:
         out = {"obj": "no-context", "log": [list(x) for x in LOG], "error": err}
     else:
         out = describe(st.frames[0].contexts[0], err)
+        t = st.frames[0].contexts[1]
+        out["tail_ok"] = (t.obj is TAILS["t1"] and t.description == "tail1" and not t.hide)
+        out["tail"] = [type(t.obj).__name__, getattr(t.obj, "n", None), t.description]
     if w:
         out["warnings"] = [str(x.message)[:200] for x in w]
     g.close()
